@@ -1034,6 +1034,30 @@ fn extend_linearized_matrix<Ty: EdgeType, T: Default>(
     }
 }
 
+/// Verification hooks (only with `--cfg petgraph_verif`): direct access to the private
+/// adjacency-matrix growth routine and position function, so that the behaviours of the
+/// TLA+ model of the growth algorithm can be replayed against the real code.
+#[cfg(petgraph_verif)]
+#[doc(hidden)]
+pub fn verif_extend_linearized_matrix<Ty: EdgeType, T: Default>(
+    node_adjacencies: &mut Vec<T>,
+    old_node_capacity: usize,
+    new_capacity: usize,
+    exact: bool,
+) -> usize {
+    extend_linearized_matrix::<Ty, T>(node_adjacencies, old_node_capacity, new_capacity, exact)
+}
+
+#[cfg(petgraph_verif)]
+#[doc(hidden)]
+pub fn verif_linearized_matrix_position<Ty: EdgeType>(
+    row: usize,
+    column: usize,
+    width: usize,
+) -> usize {
+    to_linearized_matrix_position::<Ty>(row, column, width)
+}
+
 #[inline]
 fn to_flat_square_matrix_position(row: usize, column: usize, width: usize) -> usize {
     row * width + column
